@@ -30,18 +30,18 @@ Definition resolve (st : sp_state) (p : pyval) : pyval :=
   | _ => p
   end.
 
-Fixpoint run (ver : Z) (st : sp_state) (ops : list pyval) : list pyval :=
+Fixpoint run_sp (ver : Z) (st : sp_state) (ops : list pyval) : list pyval :=
   match ops with
   | [] => []
   | o :: r => match to_op (resolve st o) with
               | None => [bad]
               | Some op => let '(st', res) := sp_step ver st op in
-                           PList [of_outcome of_cblks res; of_cblks (available_subnets st')] :: run ver st' r
+                           PList [of_outcome of_cblks res; of_cblks (available_subnets st')] :: run_sp ver st' r
               end
   end.
 
 Definition cmds : cmd_table := [
   ("c20_history", fun args => match args with
-      | [PInt ver; PInt v; PInt p; PList ops] => Some (PList (run ver [(v, p)] ops))
+      | [PInt ver; PInt v; PInt p; PList ops] => Some (PList (run_sp ver [(v, p)] ops))
       | _ => None end)
 ].
